@@ -9,6 +9,7 @@ import collections
 import hashlib
 import json
 import os
+import re
 import shutil
 import subprocess
 import sys
@@ -67,6 +68,10 @@ def gen_dag(rnd, k):
         if rnd.random() < 0.4:
             leaves.append("j%d" % rnd.randint(0, 1))
         mods[i] = {"imports": imps, "json": leaves}
+    # twin packages: byte-identical wrapper modules p<j>/tw.vy (`from . import leaf`) whose relative import resolves to
+    # different files p<j>/leaf.vy; sometimes two leaves are byte-identical too
+    mods[0]["twins"] = rnd.randint(2, 3) if rnd.random() < 0.5 else 0
+    mods[0]["same_leaf"] = rnd.random() < 0.3
     return mods
 
 
@@ -81,10 +86,17 @@ def dag_files(mods, salt):
             lines.append(f"import m{t}")
         for l in m["json"]:
             lines.append(f"import {l}")
+        tw = m.get("twins", 0)
+        for j in range(tw):
+            lines.append(f"import p{j}.tw as t{j}")
         lines.append(f"\n@internal\n@pure\ndef f{i}() -> uint256:\n    return {i}\n")
         if i == 0:
-            lines.append("@external\ndef go() -> uint256:\n    return self.f0()\n")
+            lines.append("@external\ndef go() -> uint256:\n    return self.f0()" + "".join(f" + t{j}.get()" for j in range(tw)) + "\n")
         files[f"m{i}.vy"] = "\n".join(lines)
+        for j in range(tw):
+            files[f"p{j}/tw.vy"] = "from . import leaf\n\n@internal\n@pure\ndef get() -> uint256:\n    return leaf.value() + 1\n"
+            v = 100 if (m.get("same_leaf") and j < 2) else 100 + j
+            files[f"p{j}/leaf.vy"] = f"@internal\n@pure\ndef value() -> uint256:\n    return {v}\n"
     return files
 
 
@@ -97,6 +109,8 @@ def coq_tree(mods, i, tok):
         kids.append(coq_tree(mods, t, tok))
     for l in m["json"]:
         kids.append(f'(Leaf "{tok(l + ".json")}")')
+    for j in range(m.get("twins", 0)):   # written after the other imports by dag_files
+        kids.append(f'(Node "{tok("p%d/tw.vy" % j)}" [(Node "{tok("p%d/leaf.vy" % j)}" [])])')
     return f'(Node "{tok("m%d.vy" % i)}" [' + "; ".join(kids) + "])"
 
 
@@ -722,6 +736,7 @@ def part_bundles(ctx, root, tmp):
             st0 = Settings(optimize=OptimizationLevel.GAS, experimental_codegen=False)
             base_i = comp(pr, p, ["integrity"], st0)["integrity"]
             seen = {base_i: "original"}
+            base_rt = None
             for rel in p["files"]:
                 f = pr / rel
                 orig = f.read_text()
@@ -737,6 +752,25 @@ def part_bundles(ctx, root, tmp):
                                   key="C18:integrity-insensitive")
                     return stats
                 seen[i2] = rel
+                # a change of MEANING (an integer literal in a `return`): if the runtime code changes, the integrity sum must
+                # differ from the original and from every other version seen
+                m = re.search(r"return (\d+)\n", orig)
+                if m and rel.endswith(".vy"):
+                    f.write_text(orig[:m.start(1)] + str(int(m.group(1)) + 1) + orig[m.end(1):])
+                    try:
+                        r3 = comp(pr, p, ["integrity", "bytecode_runtime"], Settings(optimize=OptimizationLevel.GAS, experimental_codegen=False))
+                    finally:
+                        f.write_text(orig)
+                    stats["source_mutations"] += 1
+                    if base_rt is None:
+                        base_rt = comp(pr, p, ["bytecode_runtime"], st0)["bytecode_runtime"]
+                    if r3["bytecode_runtime"] != base_rt and r3["integrity"] in seen:
+                        ctx.violation("failing-input", "runtime bytecode changed after editing an imported source but the integrity sum did not",
+                                      {"program": name, "files": p["files"], "changed": rel, "edit": f"{m.group(0).strip()} -> +1",
+                                       "same_integrity_as": seen[r3["integrity"]], "integrity": r3["integrity"]},
+                                      key="C18:integrity-insensitive")
+                        return stats
+                    seen[r3["integrity"]] = rel + " (literal)"
             if "layout" in p:
                 f = pr / "layout.json"
                 orig = f.read_text()
